@@ -287,7 +287,7 @@ def own_packets(tier, seed):
     # messages
     ks = keyset(algs[0])
     rsa = keyset('RSA/2048')
-    bodies = [b'', b'x', 'text é\n', b'hello world ' * 50, bytes(range(256)) * 40]
+    bodies = [b'', b'x', 'text é\n', b'hello world ' * 50, bytes(range(256)) * 40, b'ends in NUL octets\x00\x00\x00']
     for bi, body in enumerate(bodies):
         for comp in CompressionAlgorithm:
             m = pgpy.PGPMessage.new(body, compression=comp)
@@ -481,6 +481,10 @@ def foreign_packets(tier, seed):
         if calg == 1:
             comp = comp.compress(inner) + comp.flush()
         add({'gen': 'compressed', 'alg': calg}, packet(8, bytes([calg]) + comp))
+        # ... and one whose last nested packet (hence the decompressed data) ends in NUL octets
+        inner = packet(11, lit_body(b'b', b'', 0, b'inner\x00\x00'))
+        comp = {0: inner, 1: zlib.compress(inner, 9)[2:-4], 2: zlib.compress(inner, 9), 3: bz2.compress(inner)}[calg]
+        add({'gen': 'compressed', 'alg': calg, 'desc': 'decompressed data ends in NUL octets'}, packet(8, bytes([calg]) + comp))
     return out
 
 
